@@ -122,113 +122,139 @@ fn p_u64(s: &str) -> u64 {
 
 pub type Recorder = Rc<RefCell<Vec<String>>>;
 
+// the scenario's predicates as pure functions of the state
+pub fn e_inv(spec: &[String], s: &McState) -> Option<u64> {
+    let sp: Vec<&str> = spec.iter().map(|x| x.as_str()).collect();
+    match sp.as_slice() {
+        ["NONE"] => None,
+        ["OUTBOXMAX", p, k] => (outbox_len(s, p_u64(p)) > p_u64(k) as i64).then_some(1),
+        ["HISTMAX", p, k] => (hist_len(s, p_u64(p)) > p_u64(k) as i64).then_some(2),
+        ["DEPTHMAX", k] => (s.depth > p_u64(k)).then_some(3),
+        _ => panic!("bad INV"),
+    }
+}
+pub fn e_goal(spec: &[String], s: &McState) -> Option<u64> {
+    let sp: Vec<&str> = spec.iter().map(|x| x.as_str()).collect();
+    match sp.as_slice() {
+        ["NONE"] => None,
+        ["NOEVENTS"] => s.events.is_empty().then_some(10),
+        ["OUTBOXEQ", p, k] => (outbox_len(s, p_u64(p)) == p_u64(k) as i64).then_some(11),
+        ["DEPTHGE", k] => (s.depth >= p_u64(k)).then_some(12),
+        _ => panic!("bad GOAL"),
+    }
+}
+pub fn e_prune(spec: &[String], s: &McState) -> Option<u64> {
+    let sp: Vec<&str> = spec.iter().map(|x| x.as_str()).collect();
+    match sp.as_slice() {
+        ["NONE"] => None,
+        ["DEPTHGT", k] => (s.depth > p_u64(k)).then_some(20),
+        ["SENTGT", k] => {
+            let lim = p_u64(k);
+            s.node_states
+                .values()
+                .any(|ns| ns.proc_states.values().any(|pe| pe.sent_message_count > lim))
+                .then_some(21)
+        }
+        _ => panic!("bad PRUNE"),
+    }
+}
+pub fn e_collect(spec: &[String], s: &McState) -> bool {
+    let sp: Vec<&str> = spec.iter().map(|x| x.as_str()).collect();
+    match sp.as_slice() {
+        ["NONE"] => false,
+        ["OUTBOXEQ", p, k] => outbox_len(s, p_u64(p)) == p_u64(k) as i64,
+        ["NOEVENTS"] => s.events.is_empty(),
+        ["DEPTHEQ", k] => s.depth == p_u64(k),
+        _ => panic!("bad COLLECT"),
+    }
+}
+
+fn verdict_text(ps: &PredSpec, s: &McState) -> String {
+    if let Some(k) = e_inv(&ps.inv, s) {
+        return format!("E{}", k);
+    }
+    if let Some(k) = e_goal(&ps.goal, s) {
+        return format!("G{}", k);
+    }
+    if let Some(k) = e_prune(&ps.prune, s) {
+        return format!("P{}", k);
+    }
+    if s.events.is_empty() {
+        "E0".to_string()
+    } else {
+        "N".to_string()
+    }
+}
+
+/// (does a pending event touch a process of a crashed node, digest of the crashed nodes' processes)
+fn crash_info(s: &McState) -> (String, String) {
+    let mut cprocs: Vec<String> = vec![];
+    let mut text = String::new();
+    for (name, ns) in &s.node_states {
+        if ns.verif_is_crashed() {
+            text.push_str(&num(name).to_string());
+            for (pn, pe) in &ns.proc_states {
+                cprocs.push(pn.clone());
+                text.push_str(&c_pentry(
+                    pn,
+                    &script_state(&pe.proc_state),
+                    &pe.local_outbox,
+                    &pe.pending_timers,
+                    pe.sent_message_count,
+                    pe.received_message_count,
+                    &pe.event_log,
+                ));
+            }
+        }
+    }
+    let bad = s.events.verif_events().iter().any(|(_, e)| match e {
+        anysystem::mc::McEvent::MessageReceived { src, dst, .. } => cprocs.contains(src) || cprocs.contains(dst),
+        anysystem::mc::McEvent::TimerFired { proc, .. } => cprocs.contains(proc),
+        _ => false,
+    });
+    (b01(bad).to_string(), fnv(&text))
+}
+
 /// one line describing a state: digest form, or the full canonical text in verbose mode
-pub fn state_line(s: &McState, verbose: bool) -> String {
+pub fn state_line(ps: &PredSpec, s: &McState, verbose: bool) -> String {
     if verbose {
         c_state(s)
     } else {
-        format!("{} {} {}", s.depth, fnv(&c_state_core(s)), fnv(&c_trace(&s.trace)))
+        let (x, k) = crash_info(s);
+        format!(
+            "d={} core={} red={} eqp={} tr={} c={} v={} x={} k={}",
+            s.depth,
+            fnv(&c_state_core(s)),
+            fnv(&c_state_red(s)),
+            fnv(&c_state_eqp(s)),
+            fnv(&c_trace(&s.trace)),
+            b01(e_collect(&ps.collect, s)),
+            verdict_text(ps, s),
+            x,
+            k
+        )
     }
 }
 
 pub fn mk_config(ps: &PredSpec, vm: &str, debug: bool, rec: Recorder, verbose: bool, fuel: u64) -> StrategyConfig {
-    let inv_spec = ps.inv.clone();
+    let psc = ps.clone();
     let invariant: InvariantFn = Box::new(move |s: &McState| {
         // the model's fuel = number of check_state calls; stop the real run at the same point
         if rec.borrow().len() as u64 >= fuel {
             return Err("FUEL".to_string());
         }
-        rec.borrow_mut().push(state_line(s, verbose));
-        let sp: Vec<&str> = inv_spec.iter().map(|x| x.as_str()).collect();
-        match sp.as_slice() {
-            ["NONE"] => Ok(()),
-            ["OUTBOXMAX", p, k] => {
-                if outbox_len(s, p_u64(p)) > p_u64(k) as i64 {
-                    Err("1".to_string())
-                } else {
-                    Ok(())
-                }
-            }
-            ["HISTMAX", p, k] => {
-                if hist_len(s, p_u64(p)) > p_u64(k) as i64 {
-                    Err("2".to_string())
-                } else {
-                    Ok(())
-                }
-            }
-            ["DEPTHMAX", k] => {
-                if s.depth > p_u64(k) {
-                    Err("3".to_string())
-                } else {
-                    Ok(())
-                }
-            }
-            _ => panic!("bad INV"),
+        rec.borrow_mut().push(state_line(&psc, s, verbose));
+        match e_inv(&psc.inv, s) {
+            Some(k) => Err(k.to_string()),
+            None => Ok(()),
         }
     });
-    let goal_spec = ps.goal.clone();
-    let goal: GoalFn = Box::new(move |s: &McState| {
-        let sp: Vec<&str> = goal_spec.iter().map(|x| x.as_str()).collect();
-        match sp.as_slice() {
-            ["NONE"] => None,
-            ["NOEVENTS"] => {
-                if s.events.is_empty() {
-                    Some("10".to_string())
-                } else {
-                    None
-                }
-            }
-            ["OUTBOXEQ", p, k] => {
-                if outbox_len(s, p_u64(p)) == p_u64(k) as i64 {
-                    Some("11".to_string())
-                } else {
-                    None
-                }
-            }
-            ["DEPTHGE", k] => {
-                if s.depth >= p_u64(k) {
-                    Some("12".to_string())
-                } else {
-                    None
-                }
-            }
-            _ => panic!("bad GOAL"),
-        }
-    });
-    let prune_spec = ps.prune.clone();
-    let prune: PruneFn = Box::new(move |s: &McState| {
-        let sp: Vec<&str> = prune_spec.iter().map(|x| x.as_str()).collect();
-        match sp.as_slice() {
-            ["NONE"] => None,
-            ["DEPTHGT", k] => {
-                if s.depth > p_u64(k) {
-                    Some("20".to_string())
-                } else {
-                    None
-                }
-            }
-            ["SENTGT", k] => {
-                let lim = p_u64(k);
-                if s.node_states.values().any(|ns| ns.proc_states.values().any(|pe| pe.sent_message_count > lim)) {
-                    Some("21".to_string())
-                } else {
-                    None
-                }
-            }
-            _ => panic!("bad PRUNE"),
-        }
-    });
-    let collect_spec = ps.collect.clone();
-    let collect: CollectFn = Box::new(move |s: &McState| {
-        let sp: Vec<&str> = collect_spec.iter().map(|x| x.as_str()).collect();
-        match sp.as_slice() {
-            ["NONE"] => false,
-            ["OUTBOXEQ", p, k] => outbox_len(s, p_u64(p)) == p_u64(k) as i64,
-            ["NOEVENTS"] => s.events.is_empty(),
-            ["DEPTHEQ", k] => s.depth == p_u64(k),
-            _ => panic!("bad COLLECT"),
-        }
-    });
+    let g = ps.goal.clone();
+    let goal: GoalFn = Box::new(move |s: &McState| e_goal(&g, s).map(|k| k.to_string()));
+    let pr = ps.prune.clone();
+    let prune: PruneFn = Box::new(move |s: &McState| e_prune(&pr, s).map(|k| k.to_string()));
+    let c = ps.collect.clone();
+    let collect: CollectFn = Box::new(move |s: &McState| e_collect(&c, s));
     let visited = match vm {
         "FULL" => VisitedStates::Full(HashSet::default()),
         "PARTIAL" => VisitedStates::Partial(HashSet::default()),
@@ -372,6 +398,8 @@ pub fn run(sc: &Scenario) -> String {
                     checker = Some((sys, mc));
                 }
                 let mc = &mut checker.as_mut().unwrap().1;
+                let before = mc.verif_system().verif_get_state();
+                writeln!(out, "BEFORE {}", state_line(&ps, &before, verbose)).unwrap();
                 let rec: Recorder = Rc::new(RefCell::new(vec![]));
                 let cfg = mk_config(&ps, &vm, debug, rec.clone(), verbose, fuel);
                 let cbops = cb.clone();
@@ -415,13 +443,18 @@ pub fn run(sc: &Scenario) -> String {
                                     writeln!(out, "STATUS {} {}", k, v).unwrap();
                                 }
                                 let mut ds: Vec<String> =
-                                    stats.collected_states.iter().map(|x| fnv(&c_state(x))).collect();
+                                    stats
+                                    .collected_states
+                                    .iter()
+                                    .map(|x| format!("{}:{}", fnv(&c_state_red(x)), fnv(&c_trace(&x.trace))))
+                                    .collect();
                                 ds.sort();
                                 writeln!(out, "COLLECTED {} {}", ds.len(), ds.join(" ")).unwrap();
                                 last_collected = stats.collected_states;
                             }
                             Err(_) if out_of_fuel => {
                                 writeln!(out, "RESULT FUEL").unwrap();
+                                return out;
                             }
                             Err(e) => {
                                 let m = if e.message() == "nothing left to do to reach the goal" {
@@ -434,7 +467,7 @@ pub fn run(sc: &Scenario) -> String {
                             }
                         }
                         let after = mc.verif_system().verif_get_state();
-                        writeln!(out, "AFTER {}", state_line(&after, verbose)).unwrap();
+                        writeln!(out, "AFTER {}", state_line(&ps, &after, verbose)).unwrap();
                         writeln!(out, "AFTERMODE {}", b01(mc.verif_system().verif_messages_first())).unwrap();
                     }
                 }
